@@ -28,6 +28,15 @@ Layers (each enumerated completely up to the tier bound):
           preserve_underscores, preserve_spaces, translate_tree_taxa, read into the source
           namespace) option set (LABEL_OPTS).
 
+  big     large representatives, exhaustive over the stated set only (both tiers): left and right
+          ladders of 12, 17, 33, 40, 65 tips, balanced trees of 16, 32, 64, stars of 12, 33, 40, 100,
+          a broom of 60 x label schemes {t000.., plain numbers (rotated, partly zero-padded, so that
+          '2', '10', '010' coexist and never equal the taxon's number), s<k> in scrambled order} x three
+          (lengths, internal labels, rooting, namespace configuration) variants x BIG_OPTS (with and
+          without translate_tree_taxa, into the source namespace); one list of three big trees over a
+          namespace of 100; ladders of 300 tips once per schema with the recursion limit a top-level
+          caller has (1000); two 200-character labels.  Same oracle.
+
 Oracle: plain comparison of snapshots (mc/ref.py: taxon label, node label, edge length,
 children in order; rooting flag) and of the namespace's label list.  Signatures name the schema,
 the kind of disagreement (reader exception class, label / length / rooting / namespace change)
@@ -35,6 +44,7 @@ and the trigger (the single character that fails on its own, the option groups t
 'empty-list').
 """
 import itertools
+import sys
 
 import dendropy
 
@@ -49,8 +59,10 @@ RULE = ("a case = one write/read round trip of one tree or tree list (built thro
         "insertions x internal nodes unlabelled/labelled/with taxa x three rooting states x eight edge-length "
         "patterns; lists: every tuple of length 0..3 over a pool of six trees; labels: nine forms around every single "
         "character, three around every ordered pair (thorough: two around every ordered triple) of the special "
-        "characters; non-trivial = tree has >= 3 leaves, list is non-empty, or the label contains a non-alphanumeric "
-        "character")
+        "characters; plus, exhaustive over a stated finite set only, large representatives (ladders, balanced trees, "
+        "stars, a broom with 12..100 tips under three label schemes incl. plain numbers, a list of three of them over "
+        "one namespace of 100, ladders of 300 tips at the default recursion limit, 200-character labels); non-trivial "
+        "= tree has >= 3 leaves, list is non-empty, or the label contains a non-alphanumeric character")
 ASSUMPTIONS = [
     "source trees are built through the Node API (mc/build.py); the expectation is the snapshot they were built from, the observation is mc/ref.snapshot of the re-read tree (primitive fields only)",
     "edge lengths are compared with ==, so an integer length n that comes back as float n is equal (the statement's 'same edge lengths'); written floats are Python reprs, so equality is exact",
@@ -97,10 +109,18 @@ def bounds(tier):
     if tier != "quick":
         b.update({"struct_max_leaves_all_orders": 5, "struct_base_and_reversed_leaves": [6],
                   "unifurcation_max_leaves": 5, "label_tuple_max": 3})
+    b["large_representatives"] = {
+        "note": "exhaustive over this stated finite set only (both tiers)",
+        "trees": [list(t) for t in BIG_TREES], "label_schemes": list(BIG_LABELS),
+        "variants_(lengths,internal_labels,rooting,namespace_config)": [list(v) for v in BIG_VARIANTS],
+        "list_of_three_over_one_namespace_of_100": [list(t) for t in BIG_LIST],
+        "deep_nesting_at_default_recursion_limit_1000": [list(t) for t in DEEP],
+        "long_label_lengths": [len(l) for l in LONG_LABELS]}
     names = lambda table: dict((k, ["+".join(o) or "default" for o in v]) for k, v in table.items())
     b["option_sets"] = {"struct_n<=4": names(STRUCT_OPTS), "struct_n=5": names(MID_OPTS), "struct_n=6": names(LITE_OPTS),
                         "unifurcations": names(UNIF_OPTS), "namespace_configs": names(NSCFG_OPTS),
-                        "lists": names(LIST_OPTS), "labels": names(LABEL_OPTS)}
+                        "lists": names(LIST_OPTS), "labels": names(LABEL_OPTS),
+                        "large_trees": names(BIG_OPTS), "large_lists": names(BIG_LIST_OPTS)}
     b["option_groups"] = {
         "into_ns": "reader taxon_namespace=<source namespace>", "ps": "writer preserve_spaces=True",
         "uu": "writer unquoted_underscores=True + reader preserve_underscores=True",
@@ -116,6 +136,65 @@ def tup(x):
     if isinstance(x, (list, tuple)):
         return tuple(tup(y) for y in x)
     return x
+
+
+_sn_cache = {}
+
+
+def sn_of(td):
+    """snapshot node a tree descriptor stands for: given explicitly ("sn") or, for the large
+    representatives, generated from a small description ("big")"""
+    if "sn" in td:
+        return tup(td["sn"])
+    key = repr(sorted(td["big"].items()))
+    if key not in _sn_cache:
+        if len(_sn_cache) > 64:
+            _sn_cache.clear()
+        _sn_cache[key] = big_sn(td["big"])
+    return _sn_cache[key]
+
+
+def snapshot(tree):
+    """mc/ref.snapshot without recursion (the deep ladders exceed its depth guard); call
+    ref.wellformed first (it detects cycles)"""
+    root = tree._seed_node
+    done = {}
+    stack = [(root, False)]
+    while stack:
+        nd, seen = stack.pop()
+        if seen:
+            done[id(nd)] = (nd.taxon._label if nd.taxon is not None else None, nd._label,
+                            nd._edge.length if nd._edge is not None else None,
+                            tuple(done.pop(id(c)) for c in nd._child_nodes))
+        else:
+            stack.append((nd, True))
+            for c in nd._child_nodes:
+                stack.append((c, False))
+    return (tree._is_rooted, done[id(root)])
+
+
+def _stack_depth():
+    f = sys._getframe()
+    n = 0
+    while f is not None:
+        n += 1
+        f = f.f_back
+    return n
+
+
+def _library_call(case, fn):
+    """Runs fn() (a library call).  For the deep-nesting cases the interpreter's recursion limit is
+    set to what a user calling from the top level of a script has (default 1000), independent of
+    how deep the harness's own stack is in this process."""
+    lim = case.get("user_recursion_limit")
+    if not lim:
+        return fn()
+    cur = sys.getrecursionlimit()
+    sys.setrecursionlimit(lim + _stack_depth())
+    try:
+        return fn()
+    finally:
+        sys.setrecursionlimit(cur)
 
 
 # ---------------------------------------------------------------------------
@@ -148,7 +227,7 @@ LABEL_OPTS = {
 def all_labels(case):
     out = list(case["ns"]["labels"])
     for td in case["trees"]:
-        for nd in ref.preorder(tup(td["sn"])):
+        for nd in ref.preorder(sn_of(td)):
             if nd[0] is not None:
                 out.append(nd[0])
             if nd[1] is not None:
@@ -158,7 +237,7 @@ def all_labels(case):
 
 def has_internal_taxa(case):
     for td in case["trees"]:
-        for nd in ref.preorder(tup(td["sn"])):
+        for nd in ref.preorder(sn_of(td)):
             if nd[3] and nd[0] is not None:
                 return True
     return False
@@ -263,6 +342,15 @@ def compare_tree(schema, exp_rooted, exp, got_rooted, got):
 
 def evaluate(case, want_text=False):
     """Runs the round trip.  Returns (problems, info): problems = list of (kind, message)."""
+    old = sys.getrecursionlimit()
+    sys.setrecursionlimit(max(old, 20000))      # the harness's own recursive helpers on deep ladders
+    try:
+        return _evaluate(case, want_text)
+    finally:
+        sys.setrecursionlimit(old)
+
+
+def _evaluate(case, want_text=False):
     schema = case["schema"]
     d = derive(case)
     if d is None:
@@ -271,14 +359,14 @@ def evaluate(case, want_text=False):
     ns, _bit = build.make_namespace(list(case["ns"]["labels"]), case["ns"]["cfg"])
     trees = []
     for i, td in enumerate(case["trees"]):
-        t = build.build_tree((td["rooted"], tup(td["sn"])), ns)
+        t = build.build_tree((td["rooted"], sn_of(td)), ns)
         if td.get("weight") is not None:
             t.weight = td["weight"]
         trees.append(t)
     exp_ns = [t._label for t in ns._taxa]
     used = set()
     for td in case["trees"]:
-        for nd in ref.preorder(tup(td["sn"])):
+        for nd in ref.preorder(sn_of(td)):
             if nd[0] is not None:
                 used.add(nd[0])
     api = case.get("api", "tree")
@@ -288,12 +376,12 @@ def evaluate(case, want_text=False):
         info["wkw"]["translate_tree_taxa"] = "{taxon k: 'T<k>'}"
     try:
         if api == "tree":
-            text = trees[0].as_string(schema=schema, **wkw)
+            text = _library_call(case, lambda: trees[0].as_string(schema=schema, **wkw))
         else:
             tl = dendropy.TreeList(taxon_namespace=ns)
             for t in trees:
                 tl.append(t)
-            text = tl.as_string(schema=schema, **wkw)
+            text = _library_call(case, lambda: tl.as_string(schema=schema, **wkw))
     except Exception as e:
         return [("write-raises:%s" % type(e).__name__, "writer raised %r" % (e,))], info
     if want_text:
@@ -302,7 +390,7 @@ def evaluate(case, want_text=False):
     if "into_ns" in case["opts"]:
         kw["taxon_namespace"] = ns
     getter = dendropy.Tree.get if api == "tree" else dendropy.TreeList.get
-    st, val = budget.guarded(lambda: getter(data=text, schema=schema, **kw), wall=20.0)
+    st, val = budget.guarded(lambda: _library_call(case, lambda: getter(data=text, schema=schema, **kw)), wall=60.0)
     if st == "hang":
         return [("read-hangs", "reader did not terminate within the step budget at %s; text %r" % (val, text[:300]))], info
     if st == "exc":
@@ -321,8 +409,8 @@ def evaluate(case, want_text=False):
         if wf:
             probs.append(("malformed-tree", "; ".join(wf)))
             continue
-        gr, gs = ref.snapshot(g)
-        for k, m in compare_tree(schema, expect_rooted[i], tup(td["sn"]), gr, gs):
+        gr, gs = snapshot(g)
+        for k, m in compare_tree(schema, expect_rooted[i], sn_of(td), gr, gs):
             if k.startswith("taxon") or k == "topology":
                 taxon_problem = True
             if all(k != k0 for k0, _ in probs):
@@ -482,6 +570,14 @@ def signature(case, kind):
                     site_tag = "|internal-label-only"
             return "%s|label|%s|%s%s%s" % (schema, _kind_class(kind), feat, site_tag, opt_tag)
     tag = "|empty-list" if (not case["trees"] and kind.split(":")[0] in ("read-raises", "write-raises", "read-hangs")) else ""
+    if case.get("layer") == "big":
+        # 'large' only when a three-leaf tree under the same options does not fail the same way
+        td = case["trees"][0]
+        d = td.get("big", {})
+        small = struct_case(schema, opts, ((0, 1), 2), td["rooted"], d.get("lens", "int_root"), d.get("imode", "off"))
+        ks = kinds_of(small)
+        if not (ks is not None and kind in ks):
+            tag += "|large"
     return "%s|%s%s%s" % (schema, kind, tag, opt_tag)
 
 
@@ -503,7 +599,7 @@ def check(case, ctx, key=None, nontrivial=True, sample=False):
         if case["schema"] == "nexml" and "<otus" in text:
             text = "... " + text[text.index("<otus"):]
         ctx.sample({"schema": case["schema"], "layer": case.get("layer"),
-                    "source": [[td["rooted"], ref.to_newick(tup(td["sn"]), True)] for td in case["trees"]],
+                    "source": [[td["rooted"], ref.to_newick(sn_of(td), True)[:300]] for td in case["trees"]],
                     "options": {"writer": info["wkw"], "reader": info["rkw"],
                                 "into_source_namespace": "into_ns" in case["opts"]},
                     "written": text if len(text) < 900 else text[:900] + "...",
@@ -729,6 +825,135 @@ def run_label3(chunk, ctx):
 
 
 # ---------------------------------------------------------------------------
+# large representatives (size-triggered defects: multi-digit taxon numbers, string-vs-number
+# ordering, recursion depth, long tokens).  Exhaustive over the stated finite set only.
+
+BIG_TREES = ([("ladder-left", k) for k in (12, 17, 33, 40, 65)] + [("ladder-right", k) for k in (12, 17, 33, 40, 65)]
+             + [("balanced", k) for k in (16, 32, 64)] + [("star", k) for k in (12, 33, 40, 100)] + [("broom", 60)])
+BIG_LABELS = ("t000", "numbers", "sortmix")
+BIG_VARIANTS = [("int_root", "off", True, "exact"), ("mixed", "labels", False, "reversed"), ("sci", "labels", None, "sorted_after")]
+BIG_OPTS = {"newick": [(), ("into_ns",)],
+            "nexus": [(), ("translate",), ("into_ns", "translate"), ("translate-dict",)],
+            "nexml": [(), ("into_ns",)]}
+BIG_LIST = [("star", 100), ("ladder-left", 65), ("balanced", 64)]
+BIG_LIST_OPTS = {"newick": [(), ("into_ns",)], "nexus": [(), ("translate",), ("translate", "weights")],
+                 "nexml": [(), ("into_ns",)]}
+DEEP = [("ladder-left", 300), ("ladder-right", 300)]
+LONG_LABELS = [("Abcdefghij" * 20), ("ab c_d'e " * 23)[:199] + "z"]
+
+
+def big_shape(kind, n):
+    if kind == "ladder-left":
+        s = 0
+        for i in range(1, n):
+            s = (s, i)
+        return s
+    if kind == "ladder-right":
+        s = n - 1
+        for i in range(n - 2, -1, -1):
+            s = (i, s)
+        return s
+    if kind == "balanced":
+        def bal(lo, hi):
+            if hi - lo == 1:
+                return lo
+            mid = (lo + hi) // 2
+            return (bal(lo, mid), bal(mid, hi))
+        return bal(0, n)
+    if kind == "star":
+        return tuple(range(n))
+    if kind == "broom":         # a ladder of 20 tips whose deepest node is a star of n - 20 tips
+        s = tuple(range(n - 20))
+        for i in range(n - 20, n):
+            s = (s, i)
+        return s
+    raise ValueError(kind)
+
+
+def big_labels(scheme, n):
+    """n distinct leaf labels.  't000': t000..; 'numbers': the plain numbers 1..n rotated by three (so a
+    label never equals its taxon's number), every third one zero-padded ('10' and '010'-style labels coexist);
+    'sortmix': s<k> in a scrambled order (string order != numeric order != namespace order)."""
+    if scheme == "t000":
+        return ["t%03d" % i for i in range(n)]
+    if scheme == "numbers":
+        return [("%03d" % k) if i % 3 == 1 else str(k) for i, k in enumerate(((j + 3) % n + 1) for j in range(n))]
+    if scheme == "sortmix":
+        return ["s%d" % ((i * 7) % n + 1) for i in range(n)]
+    raise ValueError(scheme)
+
+
+def big_sn(desc):
+    kind, n = desc["shape"]
+    labels = big_labels(desc["labels"], desc.get("label_n", n))
+    il = None
+    if desc.get("imode") == "labels":
+        il = (lambda i: str(i + 1)) if desc["labels"] == "numbers" else (lambda i: "n%d" % i)
+    return ref.mk(big_shape(kind, n), lens=lens_fn(desc.get("lens", "int_root")), labels=labels, ilabels=il)
+
+
+def big_case(schema, opts, trees, nscfg, scheme, label_n, api="tree", deep=False):
+    tds = []
+    for j, (kind, n, lens, imode, rooted) in enumerate(trees):
+        td = {"rooted": rooted, "big": {"shape": [kind, n], "labels": scheme, "label_n": label_n, "lens": lens, "imode": imode}}
+        if "weights" in opts:
+            td["weight"] = WEIGHTS[j % 3]
+        tds.append(td)
+    case = {"kind": "rt", "layer": "big", "schema": schema, "opts": list(opts), "api": api,
+            "ns": {"cfg": nscfg, "labels": big_labels(scheme, label_n)}, "trees": tds}
+    if deep:
+        case["user_recursion_limit"] = 1000
+    return case
+
+
+def run_big(chunk, ctx):
+    what = chunk["what"]
+    if what == "tree":
+        kind, n = BIG_TREES[chunk["index"]]
+        for scheme in BIG_LABELS:
+            for vi, (lens, imode, rooted, nscfg) in enumerate(BIG_VARIANTS):
+                for schema in SCHEMAS:
+                    for opts in BIG_OPTS[schema]:
+                        case = big_case(schema, opts, [(kind, n, lens, imode, rooted)], nscfg, scheme, n)
+                        if check(case, ctx, ("big", kind, n, scheme, vi, schema, opts), True,
+                                 sample=(scheme == "numbers" and vi == 0 and opts == ("translate",) and n <= 12)):
+                            ctx.count("large_tree_round_trips")
+        ctx.maximum("largest_tree_leaves", n)
+        return
+    if what == "list":
+        for scheme in BIG_LABELS:
+            for ri, rootings in enumerate(((True, False, None), (False, False, False))):
+                trees = [(k, n, ("int_root", "mixed", "sci")[j], ("off", "labels", "off")[j], rootings[j])
+                         for j, (k, n) in enumerate(BIG_LIST)]
+                for schema in SCHEMAS:
+                    for opts in BIG_LIST_OPTS[schema]:
+                        case = big_case(schema, opts, trees, "exact", scheme, 100, api="list")
+                        if check(case, ctx, ("biglist", scheme, ri, schema, opts), True):
+                            ctx.count("large_list_round_trips")
+        return
+    if what == "deep":
+        for kind, n in DEEP:
+            for schema in SCHEMAS:
+                case = big_case(schema, (), [(kind, n, "int_root", "off", True)], "exact", "t000", n, deep=True)
+                if check(case, ctx, ("deep", kind, n, schema), True):
+                    ctx.count("deep_nesting_round_trips")
+            ctx.maximum("deepest_nesting", n - 1)
+        return
+    if what == "long":
+        for li, lab in enumerate(LONG_LABELS):
+            for schema in SCHEMAS:
+                for opts in BIG_OPTS[schema]:
+                    for site in ("taxon", "internal"):
+                        case = label_case(schema, opts, lab, site, 1 if site == "taxon" else 0)
+                        case["layer"] = "big"
+                        if check(case, ctx, ("long", li, schema, opts, site), True):
+                            ctx.count("long_label_round_trips")
+            ctx.maximum("longest_label", len(lab))
+        return
+    raise ValueError(what)
+
+
+# ---------------------------------------------------------------------------
 
 def chunks(tier):
     b = bounds(tier)
@@ -744,6 +969,10 @@ def chunks(tier):
         step = 30 if n <= 3 else (2 if n == 4 else 6)
         for lo in range(0, ns, step):
             out.append({"kind": "struct", "which": "unif", "n": n, "lo": lo, "hi": min(ns, lo + step), "tier": tier})
+    for i in range(len(BIG_TREES)):
+        out.append({"kind": "big", "what": "tree", "index": i, "tier": tier})
+    for what in ("list", "deep", "long"):
+        out.append({"kind": "big", "what": what, "tier": tier})
     for first in range(-1, 6):
         out.append({"kind": "list", "first": first, "tier": tier})
     for lo in range(0, len(SINGLE_CHARS), 4):
@@ -761,6 +990,8 @@ def run_chunk(chunk, ctx):
     k = chunk["kind"]
     if k == "struct":
         run_struct(chunk, ctx)
+    elif k == "big":
+        run_big(chunk, ctx)
     elif k == "list":
         run_list(chunk, ctx)
     elif k == "label1":
@@ -778,6 +1009,6 @@ def replay(case, ctx):
     if case.get("kind") != "rt":
         raise ValueError("unknown case kind %r" % case.get("kind"))
     case = dict(case)
-    case["trees"] = [dict(td, sn=tup(td["sn"])) for td in case["trees"]]
+    case["trees"] = [dict(td, sn=tup(td["sn"])) if "sn" in td else dict(td) for td in case["trees"]]
     if not check(case, ctx):
         raise ValueError("case is not applicable (inconsistent option set)")
